@@ -27,6 +27,12 @@ mod operation;
 mod statement;
 mod ty;
 
+#[cfg(feature = "verif")]
+pub(crate) mod verif_lex {
+    pub use super::lex::token::{Lex, Token};
+    pub use super::lex::tokenize;
+}
+
 impl FromStr for AST {
     type Err = Box<ParseErr>;
 
